@@ -35,6 +35,14 @@ var execs = map[string]func(op Op) any{}
 var opTimeout = 10 * time.Second
 var opDrain = 120 * time.Second
 
+/* ops with their own internal watchdog get a generous outer one */
+func timeoutFor(op string) time.Duration {
+	if op == "uistress" {
+		return 120 * time.Second
+	}
+	return opTimeout
+}
+
 func runOp(op Op) (result any, panicMsg string) {
 	name, _ := op["op"].(string)
 	f, ok := execs[name]
@@ -57,7 +65,7 @@ func runOp(op Op) (result any, panicMsg string) {
 	select {
 	case o := <-ch:
 		return o.v, o.msg
-	case <-time.After(opTimeout):
+	case <-time.After(timeoutFor(name)):
 		/* report the timeout, but let the runaway call finish (bounded) before the next op
 		   starts, so that leaked goroutines do not pile up and slow everything else down */
 		select {
